@@ -11,6 +11,7 @@ import (
 	"time"
 
 	"github.com/tendermint/tendermint/light/provider"
+	tmproto "github.com/tendermint/tendermint/proto/tendermint/types"
 	"github.com/tendermint/tendermint/types"
 	"pgregory.net/rapid"
 
@@ -136,6 +137,21 @@ type forkSpec struct {
 	// for nil (same height and round, correct sign bytes, nil flag, right address and index) instead of being absent -
 	// what a forger can harvest from a round of that height that did not decide. Such slots must never count.
 	nilRest bool
+	// layout != "": the commits of the blocks that carry the forged validator set are NOT laid out one slot per member
+	// of that set. The forged set is {heavy forger keys holding > 2/3 of it, fillers of power 1}; the heavy keys sign
+	// their own (leading) slots, which is all an index-based +2/3 check ever looks at, and the filler slots are free:
+	// they carry what slots[] says - signatures of coalition members (members of the TRUSTED set) under their own
+	// address, possibly the same member in several slots, possibly exactly at the member's index in the trusted set,
+	// nil votes, garbage, outsiders. Vote sign bytes name neither address nor index, so every copy is a valid
+	// signature of that member. A member must count once, whatever the layout.
+	layout string // "" | replicate | scatter
+	heavy  []int
+	slots  []slotPlan // for the slots after the heavy ones
+}
+
+type slotPlan struct {
+	kind string // absent | member | member-nil | garbage | outsider
+	key  int
 }
 
 // genCoalition draws a subset of the members of vs whose share of the power falls into a drawn class relative to the
@@ -231,7 +247,113 @@ func (w *world) genFork(t *rapid.T, label string, j, m int64, refVals *types.Val
 	}
 	fs.timeMode = rapid.SampledFrom([]string{"genuine", "genuine", "genuine", "genuine", "genuine", "equal", "before", "future"}).Draw(t, label+".time")
 	fs.round = int32(rapid.SampledFrom([]int{0, 0, 1}).Draw(t, label+".round"))
+	if len(coal) > 0 {
+		fs.layout = rapid.SampledFrom([]string{"", "", "", "", "", "replicate", "replicate", "replicate", "scatter"}).Draw(t, label+".layout")
+	}
+	if fs.layout != "" {
+		w.genLayout(t, label+".layout", &fs, coal, refVals)
+	}
 	return fs
+}
+
+// genLayout replaces the forged validator set by {heavy forger keys, fillers} and draws what every filler slot of the
+// commit carries. Slot positions are meaningful relative to refVals (the set the client trusts): "replicate" puts each
+// coalition member at its own index in refVals when that slot is free, plus 0..2 further copies elsewhere; "scatter"
+// fills every slot independently.
+func (w *world) genLayout(t *rapid.T, label string, fs *forkSpec, coal []int, refVals *types.ValidatorSet) {
+	nh := rapid.IntRange(1, 2).Draw(t, label+".heavy")
+	n := nh + refVals.Size() + rapid.IntRange(0, 3).Draw(t, label+".spare")
+	var keys []int
+	var powers []int64
+	for i := 0; i < nh; i++ {
+		fs.heavy = append(fs.heavy, attackerKey+i)
+		keys = append(keys, attackerKey+i)
+		powers = append(powers, 1000)
+	}
+	for i := nh; i < n; i++ {
+		keys = append(keys, attackerKey+20+i)
+		powers = append(powers, 1)
+	}
+	fs.fv = lib.NewValSet(keys, powers)
+	fs.signers = fs.heavy
+	fs.nilRest = false
+	fs.slots = make([]slotPlan, n-nh)
+	for i := range fs.slots {
+		fs.slots[i] = slotPlan{kind: "absent"}
+	}
+	free := func() []int {
+		var f []int
+		for i, sp := range fs.slots {
+			if sp.kind == "absent" {
+				f = append(f, i)
+			}
+		}
+		return f
+	}
+	switch fs.layout {
+	case "replicate":
+		for _, k := range coal {
+			own := int(lib.ValIndexOf(refVals, k)) - nh // slot of the member's index in the trusted set
+			copies := rapid.IntRange(0, 2).Draw(t, label+".copies")
+			if own >= 0 && own < len(fs.slots) && fs.slots[own].kind == "absent" && rapid.IntRange(0, 4).Draw(t, label+".ownpos") != 0 {
+				fs.slots[own] = slotPlan{kind: "member", key: k}
+			} else {
+				copies++
+			}
+			for c := 0; c < copies; c++ {
+				f := free()
+				if len(f) == 0 {
+					break
+				}
+				fs.slots[rapid.SampledFrom(f).Draw(t, label+".pos")] = slotPlan{kind: "member", key: k}
+			}
+		}
+	case "scatter":
+		for i := range fs.slots {
+			kind := rapid.SampledFrom([]string{"absent", "absent", "member", "member", "member", "member-nil", "garbage", "outsider"}).Draw(t, label+".slot")
+			fs.slots[i] = slotPlan{kind: kind, key: rapid.SampledFrom(coal).Draw(t, label+".member")}
+		}
+	}
+}
+
+// forgeLaidOut builds the light block for header h with validator set fs.fv and the commit layout of fs.
+func (w *world) forgeLaidOut(fs forkSpec, h types.Header) *types.LightBlock {
+	vals := fs.fv.Set
+	p := sha256.Sum256(append([]byte("forged-parts/"), h.Hash()...))
+	id := types.BlockID{Hash: h.Hash(), PartSetHeader: types.PartSetHeader{Total: 1, Hash: p[:]}}
+	sigs := make([]types.CommitSig, len(vals.Validators))
+	isHeavy := func(k int) bool { return containsInt(fs.heavy, k) }
+	next := 0
+	for i, v := range vals.Validators {
+		ts := h.Time.Add(time.Second + time.Duration(i)*time.Millisecond)
+		k := lib.KeyIndex(v.Address)
+		if isHeavy(k) {
+			sigs[i] = lib.MakeVote(w.chainID, k, int32(i), tmproto.PrecommitType, h.Height, fs.round, id, ts).CommitSig()
+			continue
+		}
+		sp := slotPlan{kind: "absent"}
+		if next < len(fs.slots) {
+			sp = fs.slots[next]
+		}
+		next++
+		switch sp.kind {
+		case "member":
+			sigs[i] = lib.MakeVote(w.chainID, sp.key, int32(i), tmproto.PrecommitType, h.Height, fs.round, id, ts).CommitSig()
+		case "member-nil":
+			sigs[i] = lib.MakeVote(w.chainID, sp.key, int32(i), tmproto.PrecommitType, h.Height, fs.round, types.BlockID{}, ts).CommitSig()
+		case "garbage":
+			g := sha256.Sum256([]byte(fmt.Sprintf("garbage/%s/%d/%d", fs.salt, h.Height, i)))
+			sigs[i] = types.CommitSig{BlockIDFlag: types.BlockIDFlagCommit, ValidatorAddress: lib.Key(sp.key).PubKey().Address(),
+				Timestamp: ts, Signature: append(g[:], g[:]...)}
+		case "outsider":
+			sigs[i] = lib.MakeVote(w.chainID, attackerKey+15, int32(i), tmproto.PrecommitType, h.Height, fs.round, id, ts).CommitSig()
+		default:
+			sigs[i] = types.NewCommitSigAbsent()
+		}
+	}
+	hh := h
+	return &types.LightBlock{SignedHeader: &types.SignedHeader{Header: &hh, Commit: types.NewCommit(h.Height, fs.round, id, sigs)},
+		ValidatorSet: vals.Copy()}
 }
 
 // build materialises the fork on top of base (the view it continues: genuine blocks, or another node's view).
@@ -285,7 +407,12 @@ func (w *world) build(fs forkSpec, base func(int64) *types.LightBlock) map[int64
 				}
 			}
 		}
-		lb := lib.ForgeLightBlock(w.chainID, h, vals, false, fs.round, signers, nilSigners)
+		var lb *types.LightBlock
+		if fs.layout != "" && vals == fs.fv.Set {
+			lb = w.forgeLaidOut(fs, h)
+		} else {
+			lb = lib.ForgeLightBlock(w.chainID, h, vals, false, fs.round, signers, nilSigners)
+		}
 		out[x] = lb
 		prev = lb
 	}
